@@ -147,6 +147,10 @@ func SiteString(site ssa.Instruction) string {
 		return "panic(" + ExprString(t.X, 3) + ")"
 	case *ssa.Store:
 		return "store " + ExprString(t.Addr, 4)
+	case *ssa.MapUpdate:
+		return "mapupdate " + ExprString(t.Map, 4) + "[" + ExprString(t.Key, 3) + "]"
+	case *ssa.Send:
+		return "send " + ExprString(t.Chan, 4)
 	case *ssa.Go:
 		return "go " + core.CalleeName(t)
 	case *ssa.Defer:
